@@ -44,16 +44,28 @@ def build(ctx):
                     qq.prepare = (lambda name_, defs_: (lambda q_: q_.sources.__setitem__(0, ctx.ir_translate(name_, h, cxx=True, defines=inc + defs_))))(name, defs)
     # ---- schedules: resumable step functions, symbolic interleaving at atomic accesses and buffer copies ----
     hs = os.path.join(vlib.HARN, "C06", "h_sched.cpp")
-    # NOT RUN: the smallest schedule query (1 concurrent write, 2 polls, 3 preemptions) did not finish in 600 s; set
-    # VERIF_C06_SCHED=1 to try them.  The sequential part above is what the check decides.
-    sched = [(0, 8, 12, 3, 1), (2, 12, 12, 3, 1), (2, 16, 8, 2, 2)] if os.environ.get("VERIF_C06_SCHED") else []
-    for pre, w0, w1, yields, wops in sched:
-        defs = ["-DPRE=%d" % pre, "-DW0=%d" % w0, "-DW1=%d" % w1, "-DYIELDS=%d" % yields, "-DWOPS=%d" % wops]
-        name = "sched-pre%d-w%d_%d-y%d-o%d" % (pre, w0, w1, yields, wops)
-        qq = ctx.add(vlib.Query(name, ["@IR@"] + rt, defines=defs, unwind=2 * yields + 40, objbits=12, native_sources=["@IR@", os.path.join(vlib.STUBS, "cxxrt_native.c"), vlib.unit("rtosc")],
-                                native_cxx=False, native_flags=["-DND_NO_SCHED"], unwindset=["rtosc_message_ring_length.%d:10" % k for k in range(8)] + ["bundle_ring_length.0:4"],
-                                descr={"threads": ("writer: raw_write(m0); raw_write(m1)" if wops == 2 else "m0 queued beforehand; writer: raw_write(m1)") + "   reader: 2 x (hasNext ? read)", "message sizes": [w0, w1], "ring pre-positioned by": "%d write/read pairs of 12 bytes" % pre,
-                                       "schedule": "symbolic: at most %d preemptions at atomic index accesses / buffer copies, any order of the two threads" % yields, "payloads": "symbolic"}))
+    # schedules are enumerated concretely (which thread yields at which of its yield points); a symbolic schedule did not finish
+    NY = 20 if not thorough else 26    # yield points enumerated per thread (beyond the last real one the query degenerates to the sequential case)
+    sched = []
+    for pre, w0, w1 in ([(0, 8, 12), (2, 12, 12)] if not thorough else [(0, 8, 12), (1, 12, 12), (2, 12, 12), (2, 16, 8)]):
+        for k in range(NY):
+            sched.append((pre, w0, w1, 0, k, -1, -1, -1))      # writer preempted at its k-th point, reader runs to completion, writer resumes
+            sched.append((pre, w0, w1, 1, -1, -1, k, -1))      # reader preempted at its k-th point, writer runs to completion, reader resumes
+        if thorough:
+            for k in range(0, NY, 2):
+                for j in range(0, NY, 3):
+                    sched.append((pre, w0, w1, 0, k, -1, j, -1))   # W to k, R to j, W to the end, R to the end
+    if not os.environ.get("VERIF_C06_SCHED"):
+        sched = []   # NOT RUN by default: neither a symbolic schedule (600 s) nor one concrete schedule per query (1200 s) finished
+    for pre, w0, w1, first, yw1, yw2, yr1, yr2 in sched:
+        wops = 1
+        defs = ["-DPRE=%d" % pre, "-DW0=%d" % w0, "-DW1=%d" % w1, "-DWOPS=%d" % wops, "-DFIRST=%d" % first, "-DYW1=%d" % yw1, "-DYW2=%d" % yw2, "-DYR1=%d" % yr1, "-DYR2=%d" % yr2]
+        name = "sched-pre%d-w%d_%d-f%d-w%d_%d-r%d_%d" % (pre, w0, w1, first, yw1, yw2, yr1, yr2)
+        qq = ctx.add(vlib.Query(name, ["@IR@"] + rt, defines=defs, unwind=40, objbits=12, native_sources=["@IR@", os.path.join(vlib.STUBS, "cxxrt_native.c"), vlib.unit("rtosc")],
+                                native_cxx=False, native_flags=["-DND_NO_SCHED"], unwindset=["rtosc_message_ring_length.%d:10" % k_ for k_ in range(8)] + ["bundle_ring_length.0:4"],
+                                descr={"threads": "m0 queued beforehand; writer: raw_write(m1)   reader: 2 x (hasNext ? read)", "message sizes": [w0, w1], "ring pre-positioned by": "%d write/read pairs of 12 bytes" % pre,
+                                       "schedule": "%s starts; writer yields at its yield points %s, reader at %s (yield point = atomic index access or buffer copy)" % ("reader" if first else "writer", [yw1, yw2], [yr1, yr2]),
+                                       "payloads": "symbolic"}))
         qq.prepare = (lambda name_, defs_: (lambda q_: (q_.sources.__setitem__(0, ctx.ir_translate(name_, hs, cxx=True, defines=inc + defs_, roots=("harness", "writer_thread", "reader_thread"), resumable=("writer_thread", "reader_thread"))),
                                                         q_.native_sources.__setitem__(0, q_.sources[0]))))(name, defs)
     ctx.bounds = {"ring": "32 bytes (MaxMsg 16 x 2) and 36 bytes (MaxMsg 12 x 3, not a power of two)", "queue": "0..3 framed messages of 8/12/16 bytes (all fillings that fit)", "read index": "all positions", "operations": "one step from every such state"}
